@@ -11,6 +11,69 @@ import (
 
 func init() { register("C16", runC16) }
 
+// topTypeGroups: the type dumps M[…] that stand at bracket depth 0 of a statement dump, in order
+func topTypeGroups(d string) []string {
+	var out []string
+	depth, start := 0, -1
+	for i := 0; i < len(d); i++ {
+		switch d[i] {
+		case '[':
+			if depth == 0 && i > 0 && d[i-1] == 'M' {
+				start = i - 1
+			}
+			depth++
+		case ']':
+			depth--
+			if depth == 0 && start >= 0 {
+				out = append(out, d[start:i+1])
+				start = -1
+			}
+		}
+	}
+	return out
+}
+
+// normSingleUnion removes unions with a single member that stand INSIDE a type (parentheses around one type):
+// M[x] → x, applied innermost first; the outermost M[…] of a type is kept
+func normSingleUnion(d string) string {
+	if !strings.HasPrefix(d, "M[") || !strings.HasSuffix(d, "]") {
+		return d
+	}
+	inner := d[2 : len(d)-1]
+	for {
+		changed := false
+		depth := 0
+		for i := 0; i+1 < len(inner); i++ {
+			if inner[i] == 'M' && inner[i+1] == '[' {
+				// find the matching bracket and whether the group has a top-level comma
+				j, dd, comma := i+2, 1, false
+				for ; j < len(inner) && dd > 0; j++ {
+					switch inner[j] {
+					case '[':
+						dd++
+					case ']':
+						dd--
+					case ',':
+						if dd == 1 {
+							comma = true
+						}
+					}
+				}
+				if dd == 0 && !comma {
+					inner = inner[:i] + inner[i+2:j-1] + inner[j:]
+					changed = true
+					break
+				}
+			}
+			_ = depth
+		}
+		if !changed {
+			break
+		}
+	}
+	return "M[" + inner + "]"
+}
+
 // ---------------------------------------------------------------------------------------------------
 // generator: annotation lines derived from the grammar of docs/manual/annotate.md, together with the
 // structure the documentation gives them (in the canonical dump format shared with the Lean driver)
@@ -358,7 +421,11 @@ func runC16(res *lib.Result, tier string, seed int64, args []string) error {
 			// structure is a failing input of the property itself, not only a broken correspondence
 			failing := valid && dropP(impl) != want
 			res.AddViolation("impl-vs-model", fmt.Sprintf("real parser %q, model %q", lib.Trunc(impl, 300), lib.Trunc(model, 300)), "---@"+line, !failing)
-			continue
+			if !valid || failing {
+				continue
+			}
+			// the structure is the documented one and only the printed form differs from the model's: go on to the
+			// print-and-read step, which may turn the broken correspondence into a failing input of the property
 		}
 		if !valid {
 			res.Dist("corrupted." + strings.Fields(impl + " x")[0])
@@ -373,7 +440,7 @@ func runC16(res *lib.Result, tier string, seed int64, args []string) error {
 		}
 		// (3) print and read again (type-carrying statements)
 		if i := strings.Index(impl, " P="); i >= 0 {
-			for _, ph := range strings.Split(impl[i+3:], ";") {
+			for pi, ph := range strings.Split(impl[i+3:], ";") {
 				printed := string(lib.UnHex(ph))
 				if printed == "" {
 					continue
@@ -388,7 +455,15 @@ func runC16(res *lib.Result, tier string, seed int64, args []string) error {
 					againPrinted = string(lib.UnHex(again[j+3:]))
 				}
 				res.Dist("roundtrip")
-				if againPrinted == printed && !strings.Contains(again, "ERR") {
+				// the same type: the text prints the same again AND the tree that is read is the tree that was printed
+				// (a union in parentheses with a single member is that member)
+				sameTree := true
+				if groups := topTypeGroups(dropP(impl)); len(groups) == len(strings.Split(impl[i+3:], ";")) {
+					if ag := topTypeGroups(dropP(again)); len(ag) == 1 {
+						sameTree = normSingleUnion(ag[0]) == normSingleUnion(groups[pi])
+					}
+				}
+				if againPrinted == printed && !strings.Contains(again, "ERR") && sameTree {
 					continue
 				}
 				caseText := fmt.Sprintf("---@%s\nprinted as %q\nread again: %s (prints %q)", line, printed, dropP(again), againPrinted)
@@ -399,9 +474,6 @@ func runC16(res *lib.Result, tier string, seed int64, args []string) error {
 				case g.hasConst:
 					res.HitKnown("C16-K3", "a quoted constant '\"r\"' is printed as \"r\", which is read back as the unquoted constant r", caseText)
 					res.Dist("hit.C16-K3")
-				case g.parenUnion:
-					res.HitKnown("C16-K4", "parentheses are not printed: '(A|B)[]' prints as 'A | B[]', which reads back as A | (B[])", caseText)
-					res.Dist("hit.C16-K4")
 				case canon == "canon=1":
 					res.AddViolation("impl-vs-spec", "a type of the canonical fragment does not survive print-and-read (theorem roundtrip's premise holds for it)", caseText, false)
 				default:
